@@ -6,6 +6,7 @@
 //!        coll-mc replay --prop <id> --case "<text>"
 
 mod abort;
+mod boxend;
 mod boxinit;
 mod claimops;
 mod copyops;
@@ -832,6 +833,7 @@ fn main() {
                     results.push(explore_vecs(&prop, thorough, deadline));
                     if prop == "C06" && results[0].1.is_empty() {
                         results.push(boxinit::explore(thorough));
+                        results.push(boxend::explore(thorough));
                     }
                     if thorough && prop == "C06" && results.iter().all(|r| r.1.is_empty()) {
                         // one level deeper with the plain alphabet: a panic at every callback of every history of 3 operations
@@ -880,6 +882,13 @@ fn main() {
             }
             if case.starts_with("claimops:") {
                 match claimops::replay(&case) {
+                    Some(m) => println!("REPLAY VIOLATION step=0 msg={m}"),
+                    None => println!("REPLAY OK"),
+                }
+                return;
+            }
+            if case.starts_with("boxend:") {
+                match boxend::replay(&case) {
                     Some(m) => println!("REPLAY VIOLATION step=0 msg={m}"),
                     None => println!("REPLAY OK"),
                 }
